@@ -46,6 +46,8 @@ def correspond(res, tier):
             with installed(fx.standins):
                 for _ in range(n):
                     xa, xb = rng.choice(ivs), rng.choice(ivs)
+                    if rng.random() < 0.3:   # one-level finer neighbour of another slab: its space children are
+                        xb = (xa[0], (xa[0] + xa[1]) / 2)   # strictly inside xa
                     if pw and fx.piece_index(xa[0]) != fx.piece_index(xb[0]):
                         xb = xa
                     ta, tb = rng.choice(TIME_LATTICE), rng.choice(TIME_LATTICE)
